@@ -6,10 +6,12 @@ import json, os, re, shutil, subprocess, sys, tempfile, time
 V = "/verif"
 want = sys.argv[1:]
 rows = []
-for name in sorted(os.listdir(f"{V}/seeded")):
+from concurrent.futures import ThreadPoolExecutor
+JOBS = int(os.environ.get("SEED_MATRIX_JOBS", "1"))
+
+
+def one(name):
     sd = f"{V}/seeded/{name}"
-    if not os.path.isdir(sd) or (want and not any(w in name for w in want)):
-        continue
     meta = json.load(open(f"{sd}/meta.json")) if os.path.exists(f"{sd}/meta.json") else {}
     prop = meta.get("property", name[:3])
     d = tempfile.mkdtemp(prefix="pyvc_seed_")
@@ -18,7 +20,7 @@ for name in sorted(os.listdir(f"{V}/seeded")):
         shutil.copytree("/repo/strawberryfields", f"{d}/strawberryfields", ignore=shutil.ignore_patterns("__pycache__", "*.pyc"))
         r = subprocess.run(["patch", "-p1", "-s", "-i", f"{sd}/patch.diff"], cwd=d, capture_output=True, text=True)
         if r.returncode != 0:
-            rows.append((name, prop, "PATCH DOES NOT APPLY", [], 0)); continue
+            return (name, prop, "PATCH DOES NOT APPLY", [], 0)
         env = dict(os.environ, PYVC_REPO=d)
         r = subprocess.run(["python3-vt", f"{V}/pyvc/check.py", prop, "--tier", "quick", "--no-evidence"], env=env, capture_output=True, text=True, timeout=3000)
         fails = re.findall(r"failed obligation: (.*?)(?::| - )", r.stdout)
@@ -28,13 +30,19 @@ for name in sorted(os.listdir(f"{V}/seeded")):
         for f in fails:
             if f not in uniq:
                 uniq.append(f)
-        rows.append((name, prop, f"exit {r.returncode}, {viol} VIOLATION lines ({replayed} with a replayed failing input)", uniq, round(time.time() - t0)))
+        row = (name, prop, f"exit {r.returncode}, {viol} VIOLATION lines ({replayed} with a replayed failing input)", uniq, round(time.time() - t0))
         meta["caught_by"] = uniq[:12]
         meta["check_exit_on_seeded_tree"] = r.returncode
         json.dump(meta, open(f"{sd}/meta.json", "w"), indent=1)
     finally:
         shutil.rmtree(d, ignore_errors=True)
-    print(rows[-1][:3], flush=True)
+    print(row[:3], flush=True)
+    return row
+
+
+names = [n for n in sorted(os.listdir(f"{V}/seeded")) if os.path.isdir(f"{V}/seeded/{n}") and (not want or any(w in n for w in want))]
+with ThreadPoolExecutor(max_workers=JOBS) as ex:
+    rows = [r for r in ex.map(one, names) if r]
 with open(f"{V}/seeded/RESULTS.md", "a" if want else "w") as f:
     if not want:
         f.write("# seeded changes vs. the registered quick checks (tools/seed_matrix.py)\n\n")
